@@ -102,9 +102,9 @@ Definition TInv (c : config) (st : state) : Prop :=
   gp st = GRun -> forall i th, nth_error (ths st) i = Some th -> tally_ok c (round st) i th.
 
 Lemma tinv_step : forall c st l st',
-  Inv c st -> TInv c st -> step c st l = Some st' -> TInv c st'.
+  fixed_code c -> Inv c st -> TInv c st -> step c st l = Some st' -> TInv c st'.
 Proof.
-  intros c st l st' [L K] T ST. apply step_cases in ST.
+  intros c st l st' GD [L K] T ST. apply (step_cases _ _ _ _ (proj2 GD)) in ST.
   destruct ST as [G R|G R|k G F X|G F X|i th th' b' G N TC]; unfold TInv; cbn [gp round ths]; try discriminate.
   - intros _ i th Hi. apply nth_error_In in Hi. apply in_map_iff in Hi. destruct Hi as (y & <- & _).
     unfold tally_ok, fresh; cbn. split; intros; lia.
@@ -114,7 +114,7 @@ Proof.
 Qed.
 
 Lemma tinv_reachable : forall c st,
-  1 <= nthreads c -> guard c = true -> reachable c st -> TInv c st.
+  1 <= nthreads c -> fixed_code c -> reachable c st -> TInv c st.
 Proof.
   intros c st T1 GD [tr E].
   assert (forall s t s', exec_from c s t s' -> Inv c s -> TInv c s -> TInv c s') as G.
@@ -127,7 +127,7 @@ Qed.
 (** The sample a thread hands back contains exactly its own operations of the
     timed section of this round. *)
 Theorem own_allocs_reachable : forall c st i th,
-  1 <= nthreads c -> guard c = true -> reachable c st ->
+  1 <= nthreads c -> fixed_code c -> reachable c st ->
   gp st = GRun -> nth_error (ths st) i = Some th -> md th = Returned ->
   result th = Some (own_allocs c i (round st)).
 Proof.
